@@ -33,9 +33,11 @@ Del(f, k) == [x \in (DOMAIN f) \ {k} |-> f[x]]
 New ==
     /\ IsEvent("new")
     /\ LET e == Rec[tpos] IN
-       IF e.out = "ok"
-       THEN inst' = Put(inst, e.id, [type |-> e.type, ks |-> TLCEval(OSched(e.type, e.key, e.x))])
-       ELSE UNCHANGED inst
+       \* whether a key is accepted is decided elsewhere (C11, C13); a constructor that panics conforms to nothing
+       /\ e.out # "panic"
+       /\ IF e.out = "ok"
+          THEN inst' = Put(inst, e.id, [type |-> e.type, ks |-> TLCEval(OSched(e.type, e.key, e.x))])
+          ELSE UNCHANGED inst
 
 Ok(e) == IF "outcome" \in DOMAIN e THEN e.outcome = "ok" ELSE TRUE
 
@@ -71,9 +73,10 @@ Blocks ==
 Derive(k) ==
     /\ IsEvent(k)
     /\ LET e == Rec[tpos] IN
-       IF e.out = "ok" /\ e.src \in DOMAIN inst
-       THEN inst' = Put(inst, e.id, inst[e.src])
-       ELSE UNCHANGED inst
+       /\ e.out # "panic"
+       /\ IF e.out = "ok" /\ e.src \in DOMAIN inst
+          THEN inst' = Put(inst, e.id, inst[e.src])
+          ELSE UNCHANGED inst
 
 Drop ==
     /\ IsEvent("drop")
